@@ -14,6 +14,7 @@ TInit == /\ tid \in 1..Len(Traces) /\ l = 1
          /\ sampleOf = [p \in 0..Len(Traces[tid].sampleOf) - 1 |-> Traces[tid].sampleOf[p + 1]]
          /\ observed = [p \in 0..Len(Traces[tid].observed) - 1 |-> Traces[tid].observed[p + 1]]
          /\ batch = << >>
+         /\ flow = Traces[tid].flow
 
 \* constants of KPerSample are only used by its Init; the trace supplies the configuration
 TPlates == 0..Len(T.sampleOf) - 1
@@ -33,15 +34,16 @@ TSelect == /\ T.kind = "walk" /\ l <= Len(T.steps) /\ Ev.ev = "select"
            /\ Check(tid, l, "chosen-is-allowed", Ev.chosen \in TAllowed(batch))
            /\ Check(tid, l, "chosen-has-minimal-score", \A q \in TAllowed(batch) : Ev.rank[Ev.chosen + 1] <= Ev.rank[q + 1])
            /\ batch' = Append(batch, Ev.chosen)
-           /\ l' = l + 1 /\ UNCHANGED <<k, sampleOf, observed, tid>>
+           /\ observed' = IF flow = "retrospective" THEN [observed EXCEPT ![Ev.chosen] = TRUE] ELSE observed
+           /\ l' = l + 1 /\ UNCHANGED <<k, sampleOf, flow, tid>>
 TEnd == /\ T.kind = "walk" /\ l <= Len(T.steps) /\ Ev.ev = "none"
         /\ Check(tid, l, "nothing-returned-only-if-nothing-allowed", TAllowed(batch) = {})
         /\ Check(tid, l, "policy-returned-empty", Len(Ev.allowed) = 0)
-        /\ l' = l + 1 /\ UNCHANGED <<k, sampleOf, observed, batch, tid>>
+        /\ l' = l + 1 /\ UNCHANGED <<k, sampleOf, observed, batch, flow, tid>>
 TMulti == /\ T.kind = "multi" /\ l = 1
           /\ Check(tid, l, "refuse-iff-multi-sample-plate",
                    T.raised = (\E x \in 1..Len(T.plate_samples) : Len(T.plate_samples[x]) # 1))
-          /\ l' = 2 /\ UNCHANGED <<k, sampleOf, observed, batch, tid>>
+          /\ l' = 2 /\ UNCHANGED <<k, sampleOf, observed, batch, flow, tid>>
 TDone == /\ l = (IF T.kind = "walk" THEN Len(T.steps) + 1 ELSE 2)
          /\ Accept(tid) /\ UNCHANGED <<vars, tid, l>>
 TNext == TSelect \/ TEnd \/ TMulti \/ TDone
